@@ -42,6 +42,7 @@ def plan(tier, seed):
             for v in (2, 3):
                 scs.append(dict(kind='gen', cell=ci, pat=pn, subpose=4 if (ci + v) % 2 else 1, place=P(0.97, 0.03, 0.97), variant=v, ncopies=2, atol=0.3, build_atol=0.48, noise=1))
     scs += [dict(kind='real', i=i) for i in (list(range(3)) + [5] if q else range(len(REAL)))]
+    scs += [dict(kind='large', order=o, variant=v) for o in (0, 1) for v in ('self', 'aba')]
     return dict(scenarios=scs, exhaustive=True, chunk=10,
                 menus=dict(cells=[c[0] for c in G.CELLS], patterns=PATS, variants=VARIANTS, copies=[1, 2], real=[r[0] for r in REAL], draws='every answer of both steps within the bound'),
                 bounds=dict(history_depth=2, draw_deviation_bound=draw_bound(tier)),
@@ -253,9 +254,49 @@ def run_real(sc, ctx, out):
         out['samples'] = [dict(real=name, mode=mode)]
 
 
+def run_large(sc, ctx, out):
+    """more than 2^15 atoms (G.large_case): identity replacement; C-O-H -> C-O-S -> C-O-H (the atoms put in by the first step are stored last)"""
+    cell, pos, el, pp, pel, planted = G.large_case(sc['order'])
+    s = Atoms(elements=el, positions=pos, cell=cell, charges=[1e-4 * (i % 1000) for i in range(len(el))], groups=[i % 5 for i in range(len(el))])
+    A = pattern_atoms(pel, pp); B = pattern_atoms(pel[:-1] + ['S'], pp)
+    ex = explorer(ctx)
+    V = lambda clause, sig, msg: out['violations'].append(viol(clause, sig, 'structure of %d atoms with 5 copies of C-O-H (atom order %d): %s' % (len(el), sc['order'], msg), sc))
+    if sc['variant'] == 'self':
+        (res, err), _ = ex.run(lambda: call(replace_pattern_in_structure, s, A, A.copy(), return_num_matches=True), ())
+        out['evals'] += 1; out['compared'] += 1
+        if err:
+            V('no-result', 'large-exc:' + exc_sig(err), 'raised %r' % (err[0],)); return
+        r, nm = res
+        if nm != 5:
+            V('self-noop', 'large-count', 'identity replacement reports %r matches' % (nm,))
+        if len(r.atom_types) != len(el) or list(r.elements) != list(el) or not np.array_equal(np.asarray(r.positions), np.asarray(s.positions)) or not np.array_equal(np.asarray(r.charges), np.asarray(s.charges)) or not np.array_equal(np.asarray(r.groups), np.asarray(s.groups)):
+            V('self-noop', 'large-atoms', 'identity replacement changed the atoms (%d -> %d atoms)' % (len(el), len(r.atom_types)))
+    else:
+        (r1, err), _ = ex.run(lambda: call(replace_pattern_in_structure, s, A, B, return_num_matches=True), ())
+        if err:
+            V('no-result', 'large-exc:' + exc_sig(err), 'A->B raised %r' % (err[0],)); return
+        (r2, err), _ = ex.run(lambda: call(replace_pattern_in_structure, r1[0], B, A, return_num_matches=True), ())
+        out['evals'] += 2; out['compared'] += 1
+        if err:
+            V('no-result', 'large-exc:' + exc_sig(err), 'B->A raised %r' % (err[0],)); return
+        if r1[1] != 5 or r2[1] != 5:
+            V('reversible', 'large-counts', 'A->B replaced %r matches, B->A %r; there are 5 occurrences' % (r1[1], r2[1]))
+        r = r2[0]
+        he0 = np.asarray(s.positions)[[i for i, e in enumerate(el) if e == 'He']]; he1 = np.asarray(r.positions)[[i for i, e in enumerate(r.elements) if e == 'He']]
+        if he0.shape != he1.shape or not np.array_equal(he0, he1):
+            V('reversible', 'large-bystanders', 'the He atoms changed')
+        o = [(e, tuple(p)) for e, p in zip(el, np.asarray(s.positions)) if e != 'He']; f = [(str(e), tuple(p)) for e, p in zip(r.elements, np.asarray(r.positions)) if e != 'He']
+        d = match_multiset(o, f, cell, 1e-6)
+        if d:
+            V('reversible', 'large-multiset', 'A->B->A does not restore the structure: %s' % d)
+    out['outcomes']['large %s' % sc['variant']] = 1; out['nontrivial'] = 1
+
+
 def run(sc, ctx):
     out = dict(evals=0, compared=0, violations=[], outcomes={}, hashes={h64(sc)}, nontrivial=0)
-    if sc['kind'] == 'gen':
+    if sc['kind'] == 'large':
+        run_large(sc, ctx, out)
+    elif sc['kind'] == 'gen':
         run_gen(sc, ctx, out)
     else:
         run_real(sc, ctx, out)
